@@ -44,6 +44,7 @@ Theorem go_list_default_does_not_compile :
   go_ctor wit_go_list "w" "Root" = CNoCompile "[]string literal assigned to another slice type" /\
   py_ctor wit_go_list "w" "Root" = POk (JObj [("l", JArr [JNum 1 0; JNum 2 0])]).
 Proof. exact CtorProofs.go_list_default_does_not_compile. Qed.
+Print Assumptions go_list_default_does_not_compile.
 
 Theorem ctor_defaults_go_partial : forall ctx p n fs j,
   plain_struct_object ctx p n = Some fs -> go_ctor ctx p n = COk j -> simple_fields_hold fs j = true.
@@ -108,6 +109,7 @@ Theorem defaults_dropped_by_front_ends : forall numtext j,
   fe_default "jsonschema" "struct" numtext j = DNil /\
   fe_default "openapi" "union" numtext j = DNil /\ fe_default "openapi" "struct" numtext j = DNil.
 Proof. exact CtorProofs.defaults_dropped_by_front_ends. Qed.
+Print Assumptions defaults_dropped_by_front_ends.
 
 Example c10_nonvacuous :
   exists ctx p n fs a b,
